@@ -416,3 +416,117 @@ def long_string_cases(ctx, every=1):
             except Exception:
                 ctx.stats['long-string-unbuildable'] += 1
     return out
+
+
+def constrained_leaf_roundtrips(ctx, codecs=('BER', 'CER', 'DER')):
+    """Types carrying a SIZE / value-range constraint, with values that satisfy it: BIT STRINGs whose length is not a
+    multiple of 8 or exceeds one fragment, OCTET and character strings around the fragment sizes, INTEGER ranges; plain,
+    IMPLICIT and EXPLICIT; as value objects and as plain Python values guided by the type; every encoder mode.  The encoder
+    must accept the value and the decoder guided by the same constrained type must give it back with nothing left over
+    (finding F70: padding / fragmenting a SIZE-constrained BIT STRING re-ran the constraint on the derived values).
+    Reports through ctx.prop_fail; returns the number of round trips run."""
+    from pyasn1.type import univ, char, constraint, tag
+    from . import implrun as I
+    leaves = []
+    for n in (0, 1, 3, 7, 8, 9, 15, 17, 8001):
+        bits = ''.join('1' if (i * 7 + n) % 3 else '0' for i in range(n))
+        leaves.append(('BIT STRING (SIZE(%d))' % n, univ.BitString(subtypeSpec=constraint.ValueSizeConstraint(n, n)), bits))
+    leaves.append(('BIT STRING (SIZE(2..9))', univ.BitString(subtypeSpec=constraint.ValueSizeConstraint(2, 9)), '10110'))
+    for n in (0, 1, 5, 1001):
+        leaves.append(('OCTET STRING (SIZE(%d))' % n, univ.OctetString(subtypeSpec=constraint.ValueSizeConstraint(n, n)), bytes((i * 5) % 256 for i in range(n))))
+        leaves.append(('IA5String (SIZE(%d))' % n, char.IA5String(subtypeSpec=constraint.ValueSizeConstraint(n, n)), 'k' * n))
+    leaves.append(('UTF8String (SIZE(3))', char.UTF8String(subtypeSpec=constraint.ValueSizeConstraint(3, 3)), 'aé中'))
+    leaves.append(('INTEGER (-5..300)', univ.Integer(subtypeSpec=constraint.ValueRangeConstraint(-5, 300)), 256))
+    leaves.append(('INTEGER (7)', univ.Integer(subtypeSpec=constraint.SingleValueConstraint(7)), 7))
+    modes = {'BER': [dict(), dict(defMode=False), dict(maxChunkSize=1), dict(defMode=False, maxChunkSize=3), dict(maxChunkSize=1000)],
+             'CER': [dict()], 'DER': [dict()]}
+    n = 0
+    for name, T0, pv in leaves:
+        for tg, T in (('', T0), ('[2] IMPLICIT ', T0.subtype(implicitTag=tag.Tag(tag.tagClassContext, tag.tagFormatSimple, 2))),
+                      ('[3] EXPLICIT ', T0.subtype(explicitTag=tag.Tag(tag.tagClassContext, tag.tagFormatConstructed, 3)))):
+            try:
+                v = T.clone(pv)
+            except Exception as e:
+                ctx.prop_fail('a value satisfying the constraint cannot be built', {'type': tg + name, 'error': repr(e)[:200]}); continue
+            for cdc in codecs:
+                for kw in modes[cdc]:
+                    if len(pv) > 100 and kw.get('maxChunkSize') in (1, 3): continue
+                    for how in ('object', 'python'):
+                        n += 1
+                        ctx.case(('constrained-leaf', tg + name, cdc, tuple(sorted(kw.items())), how), True)
+                        e = I.run_encode(cdc, v, **kw) if how == 'object' else I.run_encode(cdc, pv, asn1Spec=T, **kw)
+                        m = {'type': tg + name, 'codec': cdc, 'options': kw, 'given_as': how}
+                        if e[0] != 'ok':
+                            ctx.prop_fail('encoder refuses a value that satisfies the constraints of its type: %s' % e[2], m); continue
+                        m['bytes'] = e[1][:64].hex()
+                        d = I.run_decode(cdc, e[1], asn1Spec=T)
+                        if d[0] != 'ok': ctx.prop_fail('decoder refuses the encoding of a constrained value: %s' % d[2], m)
+                        elif d[2]: ctx.prop_fail('octets left over after the encoding of a constrained value', m)
+                        elif not (d[1] == v): ctx.prop_fail('constrained value comes back different', m)
+    return n
+
+
+def long_tag_set_order_cases(ctx):
+    """SETs whose members carry long-form tag numbers of DIFFERENT octet counts in one class (300 vs 20000, 16383 vs
+    16384, 2097151 vs 2097152, ..): the canonical order is by tag NUMBER, which is not the bytewise order of the
+    identifier octets (9F 82 2C < 9F 81 9C 20 numerically reversed).  Declared both ways, three classes."""
+    pairs = [(30, 31), (127, 128), (300, 20000), (16383, 16384), (2097151, 2097152), (255, 2 ** 32), (129, 16385)]
+    out = []
+    for cls in (128, 64, 192):
+        for a, b in pairs:
+            for x, y in ((a, b), (b, a)):
+                for third in (None, ('req', ('bool',))):
+                    fs = [('req', ('imp', (cls, 0, x), ('int',))), ('req', ('exp', (cls, 0, y), ('octs',)))]
+                    vs = [('i', 7), ('o', b'\x01')]
+                    if third: fs.append(third); vs.append(('b', True))
+                    try:
+                        out.append(Case(('set', fs), ('rec', vs))); ctx.stats['long-tag-set-order'] += 1
+                    except Exception:
+                        ctx.stats['long-tag-set-order-unbuildable'] += 1
+    return out
+
+
+def mixed_form_sibling_cases(ctx):
+    """Two strings of one type under the SAME (explicit) tags in one encoding, one long enough to be segmented by CER (or
+    by a caller's chunk size), the other short and looking like a TLV itself; long first and short first; as elements
+    of a SEQUENCE OF, as members of a SEQUENCE, and at two nesting levels.  Anything remembered per tag within one
+    decode (a tag or tag-set memo that forgets the primitive/constructed form) shows here and nowhere else."""
+    out = []
+    kinds = [(('octs',), ('o', bytes((i * 7) % 251 for i in range(1001))), ('o', b'\x04\x01A')),
+             (('octs',), ('o', b'abcdefghij'), ('o', b'\x04\x00')),
+             (('str', 'UTF8String'), ('chars', 'xy' * 501), ('chars', '\x0c\x01z')),
+             (('bits',), ('bits', tuple((i % 3 == 0) * 1 for i in range(8008))), ('bits', (0, 0, 0, 0, 0, 0, 1, 1, 0, 0, 0, 0, 0, 0, 0, 1)))]
+    for T0, lng, sht in kinds:
+        for E in (T0, ('exp', (128, 0, 1), T0), ('exp', (64, 0, 40), ('exp', (128, 0, 0), T0))):
+            for first, second in ((lng, sht), (sht, lng)):
+                for TT, vv in ((('seqof', E), ('list', [first, second])),
+                               (('seqof', E), ('list', [first, second, first])),
+                               (('seq', [('req', E), ('req', E)]), ('rec', [first, second])),
+                               (('seq', [('req', E), ('req', ('seqof', E))]), ('rec', [first, ('list', [second, first])]))):
+                    try:
+                        out.append(Case(TT, vv)); ctx.stats['mixed-form-siblings'] += 1
+                    except Exception:
+                        ctx.stats['mixed-form-siblings-unbuildable'] += 1
+    return out
+
+
+def default_constructed_cases(ctx):
+    """DEFAULT components of constructed type whose default value itself holds constructed members (a SEQUENCE with a
+    SEQUENCE OF, a SET OF of SEQUENCEs, a CHOICE of a list): the value equal to the default (left out on the wire and
+    re-created by whoever reads it back) and values differing one or two levels down."""
+    inner = ('seq', [('req', ('str', 'IA5String')), ('req', ('seqof', ('int',)))])
+    d1 = ('rec', [('chars', 'std'), ('list', [('i', 80), ('i', 443)])])
+    lst = ('seqof', ('seq', [('req', ('int',)), ('req', ('seqof', ('octs',)))]))
+    d2 = ('list', [('rec', [('i', 1), ('list', [('o', b'a'), ('o', b'b')])]), ('rec', [('i', 2), ('list', [])])])
+    out = []
+    for kind in ('seq', 'set'):
+        for ft, dv, others in ((inner, d1, [('rec', [('chars', 'std'), ('list', [('i', 80)])]), ('rec', [('chars', 'st'), ('list', [('i', 80), ('i', 443)])]), ('rec', [('chars', 'std'), ('list', [])])]),
+                               (lst, d2, [('list', []), ('list', [('rec', [('i', 1), ('list', [('o', b'a')])])])])):
+            for tagging in (lambda t: t, lambda t: ('exp', (128, 0, 5), t), lambda t: ('imp', (128, 0, 6), t)):
+                T = (kind, [(('def', dv), tagging(ft)), ('req', ('int',))])
+                for v in [None, dv] + others:
+                    try:
+                        out.append(Case(T, ('rec', [v, ('i', 9)]))); ctx.stats['default-constructed'] += 1
+                    except Exception:
+                        ctx.stats['default-constructed-unbuildable'] += 1
+    return out
